@@ -99,11 +99,13 @@ def plan(rng, idx, tier):
         gr = rng.sub('g', j)
         ccfg = gcontent.ContentCfg(max_nodes=gr.weighted([(1, 3), (2, 3), (3, 3), (4, 3), (5, 3), (9, 1), (13, 1)]),
                                    max_attrs=gr.weighted([(2, 6), (5, 1)]), reifiable=gr.pick([0.0, 0.3, 0.6]),
+                                   exotic=gr.pick([0.0, 0.0, 0.0, 0.15]),
                                    reified_nodes=gr.pick([0.0, 0.3, 0.8]), p_inverted_attr=0.03,
                                    p_none_target=0.02, avoid_ambiguous=True)
         c = gcontent.gen_content(gr, spec, ccfg)
         tree = gcontent.layout_tree(gr.sub('layout'), c, spec, gcontent.LayoutCfg(p_align=gr.pick([0, 0, 0.3, 0.6])))
-        graphs.append({'tree': tree, 'meta': gtext.gen_metadata(gr.sub('meta'), p_any=0.5)})
+        graphs.append({'tree': tree, 'meta': gtext.gen_metadata(gr.sub('meta'), p_any=0.5,
+                                                                exotic=gr.pick([0.0, 0.0, 0.0, 0.3]))})
     srng = rng.sub('style')
     nfiles = srng.weighted([(0, 4), (1, 3), (2, 2), (3, 1)])       # 0 = stdin
     cuts = sorted(srng.randrange(ng + 1) for _ in range(max(0, nfiles - 1)))
@@ -203,6 +205,10 @@ def run_tool(spec, opts, stdin, texts, trace, k, res, tag):
     stdin_bytes = b''
     if stdin:
         stdin_bytes = texts[0].encode('utf-8')
+        if opts.get('encoding'):
+            # --encoding concerns FILE arguments; given together with stdin it must change nothing
+            argv += ['--encoding', 'utf-8']
+            res.hit('probe.encoding_option')
     else:
         enc = opts.get('encoding') or 'utf-8'
         if opts.get('encoding'):
